@@ -79,6 +79,8 @@ func Load(repo string) (*Prog, error) {
 	}
 	prog, _ := ssautil.AllPackages(pkgs, ssa.BuilderMode(0))
 	prog.Build()
+	theProg = prog
+	stateAccMemo = map[*ssa.Function]string{}
 	p := &Prog{RepoDir: repo, Fset: prog.Fset, SSA: prog, byObj: map[types.Object]*ssa.Function{}}
 	for _, pk := range pkgs {
 		sp := prog.Package(pk.Types)
@@ -137,6 +139,8 @@ func Load(repo string) (*Prog, error) {
 	for _, f := range p.Funcs {
 		forwardSpills(f)
 	}
+	resolveFuncGlobals(p)
+	devirtualise(p)
 	ResolveRoles(p)
 	ResolveParamFields(p)
 	return p, nil
@@ -715,6 +719,161 @@ func freeVarReadOnly(fn *ssa.Function, i int, depth int) bool {
 }
 
 // replaceValue makes every user of old use new instead (operands and referrer lists).
+// resolveFuncGlobals: a package-level variable of function type that is assigned exactly once, by its own declaration
+// (`var queueAfter = time.After` - a seam for tests), and whose address is never taken otherwise, always holds that
+// function: every load of it is replaced by the function itself, so that calls through the variable are the static calls
+// they amount to.
+func resolveFuncGlobals(p *Prog) {
+	type info struct {
+		stores []*ssa.Store
+		loads  []*ssa.UnOp
+		other  bool
+	}
+	gl := map[*ssa.Global]*info{}
+	get := func(g *ssa.Global) *info {
+		if gl[g] == nil {
+			gl[g] = &info{}
+		}
+		return gl[g]
+	}
+	for _, f := range p.Funcs {
+		Instrs(f, func(ins ssa.Instruction) {
+			var rands []*ssa.Value
+			for _, op := range ins.Operands(rands) {
+				if op == nil || *op == nil {
+					continue
+				}
+				g, ok := (*op).(*ssa.Global)
+				if !ok || g.Pkg == nil || !(g.Pkg == p.Fpgo || g.Pkg == p.Network || g.Pkg == p.Worker) {
+					continue
+				}
+				if _, isSig := g.Type().(*types.Pointer).Elem().Underlying().(*types.Signature); !isSig {
+					continue
+				}
+				switch x := ins.(type) {
+				case *ssa.Store:
+					if x.Addr == ssa.Value(g) {
+						get(g).stores = append(get(g).stores, x)
+						continue
+					}
+				case *ssa.UnOp:
+					if x.Op == token.MUL && x.X == ssa.Value(g) {
+						get(g).loads = append(get(g).loads, x)
+						continue
+					}
+				}
+				get(g).other = true
+			}
+		})
+	}
+	for _, in := range gl {
+		if in.other || len(in.stores) != 1 {
+			continue
+		}
+		st := in.stores[0]
+		if st.Parent().Name() != "init" || st.Parent().Parent() != nil {
+			continue
+		}
+		v := st.Val
+		for {
+			if ct, ok := v.(*ssa.ChangeType); ok {
+				v = ct.X
+				continue
+			}
+			break
+		}
+		fn, ok := v.(*ssa.Function)
+		if !ok {
+			continue
+		}
+		for _, ld := range in.loads {
+			replaceValue(ld, fn)
+		}
+	}
+}
+
+// devirtualise: a call through an UNEXPORTED interface of the repository (a seam: `type poster interface{ Post(func()) }`)
+// into which the program only ever converts values of one concrete type is a call of that type's method. Such calls are
+// rewritten in place into static calls with the receiver as first argument - the form every rule expects for a method
+// call. Exported interfaces (WorkerPool, SortDescriptor, Pattern…) are left alone: callers can implement them.
+func devirtualise(p *Prog) {
+	impl := map[*types.Named]map[string]types.Type{} // interface -> concrete types converted into it (by type string)
+	isSeam := func(t types.Type) *types.Named {
+		n, ok := t.(*types.Named)
+		if !ok {
+			return nil
+		}
+		if _, isI := n.Underlying().(*types.Interface); !isI {
+			return nil
+		}
+		o := n.Origin().Obj()
+		if o.Exported() || o.Pkg() == nil || !strings.HasPrefix(o.Pkg().Path(), ModPath) {
+			return nil
+		}
+		return n
+	}
+	for _, f := range p.Funcs {
+		Instrs(f, func(ins ssa.Instruction) {
+			var to types.Type
+			var from ssa.Value
+			switch x := ins.(type) {
+			case *ssa.MakeInterface:
+				to, from = x.Type(), x.X
+			case *ssa.ChangeInterface:
+				to, from = x.Type(), x.X
+			default:
+				return
+			}
+			if n := isSeam(to); n != nil {
+				if impl[n] == nil {
+					impl[n] = map[string]types.Type{}
+				}
+				ft := from.Type()
+				if _, isI := ft.Underlying().(*types.Interface); isI {
+					impl[n]["<interface>"] = ft // converted from another interface: unknown concrete types
+				} else {
+					impl[n][ft.String()] = ft
+				}
+			}
+		})
+	}
+	for _, f := range p.Funcs {
+		Instrs(f, func(ins ssa.Instruction) {
+			ci, ok := ins.(ssa.CallInstruction)
+			if !ok {
+				return
+			}
+			c := ci.Common()
+			if !c.IsInvoke() {
+				return
+			}
+			n := isSeam(c.Value.Type())
+			if n == nil || len(impl[n]) != 1 {
+				return
+			}
+			var ct types.Type
+			for _, t := range impl[n] {
+				ct = t
+			}
+			if _, isI := ct.Underlying().(*types.Interface); isI {
+				return
+			}
+			sel := p.SSA.MethodSets.MethodSet(ct).Lookup(c.Method.Pkg(), c.Method.Name())
+			if sel == nil {
+				return
+			}
+			fn := p.SSA.MethodValue(sel)
+			if fn == nil {
+				return
+			}
+			recv := c.Value
+			c.Args = append([]ssa.Value{recv}, c.Args...)
+			c.Value = fn
+			c.Method = nil
+		})
+	}
+}
+
 func replaceValue(old ssa.Value, new ssa.Value) {
 	refs := old.Referrers()
 	if refs == nil {
